@@ -1483,6 +1483,13 @@ bool dispatch_api(State& st, const std::string& op, const json& a, json& ret)
         ret = id;
         return true;
     }
+    if (op == "copy_file")
+    {
+        std::error_code ec;
+        ret = std::filesystem::copy_file(a.at("from").get<std::string>(), a.at("to").get<std::string>(),
+                                         std::filesystem::copy_options::overwrite_existing, ec);
+        return true;
+    }
     if (op == "remove_file")
     {
         // the user deletes one file of a library (m.db, to "reset" it) and leaves the rest
